@@ -25,7 +25,7 @@ import (
 func init() {
 	fw.Register(&fw.Prop{
 		ID: "C13",
-		Rule: "executions of Mine over versions {v1, v2} x workers {1,2,3,4,8,16,32,64} x target class {every batch qualifies (all workers find at once), easy, medium, unattainable in time} x cancellation {never, before the call, inside the watcher's first Done() call, after a seeded delay 0..5 ms, around the expected find time, from 8 goroutines at once} x context kind {context.Background (nil Done channel), harness context whose channel is never closed, harness cancellable context, context.WithCancel} x GOMAXPROCS {1,2,4,16} x CPU hogs on/off x delay injected inside Done(). Events CALL, DONE-CALLED, CANCEL-ISSUED, RETURN are stamped from one atomic counter at the client boundary. Monitors: M1 result (nonce meets the target under Score, or the version's ErrCancelled and only after CANCEL-ISSUED); M2 bounded return (30 s after cancellation, goroutine dump classifies deadlock / still hashing); M3 goroutine accounting (no goroutine with a pkg/pow frame 2 s after return); M4 race detector (race build: reports with a pkg/pow frame are violations). " +
+		Rule: "executions of Mine over versions {v1, v2} x workers {1,2,3,4,8,16,32,64} x target class {every batch qualifies (all workers find at once), easy, medium, unattainable in time} x cancellation {never, before the call, inside the watcher's first Done() call, after a seeded delay 0..5 ms, around the expected find time, from 8 goroutines at once} x context kind {context.Background (nil Done channel), harness context whose channel is never closed, harness cancellable context, context.WithCancel} x GOMAXPROCS {1,2,4,16} x CPU hogs on/off x delay injected inside Done() x optionally a second goroutine mining concurrently on the same *Worker. Events CALL, DONE-CALLED, CANCEL-ISSUED, RETURN are stamped from one atomic counter at the client boundary. Monitors: M1 result (nonce meets the target under Score, or the version's ErrCancelled and only after CANCEL-ISSUED); M2 bounded return (30 s after cancellation, goroutine dump classifies deadlock / still hashing); M3 goroutine accounting (no goroutine with a pkg/pow frame 2 s after return); M4 race detector (race build: reports with a pkg/pow frame are violations). " +
 			"Non-trivial: distinct (version, workers, target class, cancel mode, context kind, GOMAXPROCS) tuples.",
 		Assumptions: []string{"Go offers no controlled scheduler: interleavings are sampled (race build, GOMAXPROCS, hogs, delays), not enumerated", "30 s / 2 s are watchdog bounds four orders of magnitude above the expected latencies", "the package's own Score decides whether a nonce meets the target (Score itself is judged by C11/C12)"},
 		Builds:      []string{"race", "default"},
@@ -33,9 +33,9 @@ func init() {
 		Judge:       judge,
 		Render: func(class string, key []byte) interface{} {
 			c := decode(key)
-			return map[string]interface{}{"version": c.version, "workers": c.workers, "target_class": tclasses[c.tclass], "cancel_mode": cmodes[c.cmode], "context": ckinds[c.ckind], "gomaxprocs": c.procs, "cpu_hogs": c.hogs, "done_delay_us": c.doneDelayUS, "seed": c.seed}
+			return map[string]interface{}{"version": c.version, "workers": c.workers, "target_class": tclasses[c.tclass], "cancel_mode": cmodes[c.cmode], "context": ckinds[c.ckind], "gomaxprocs": c.procs, "cpu_hogs": c.hogs, "done_delay_us": c.doneDelayUS, "seed": c.seed, "second_caller_on_same_worker": c.shared}
 		},
-		Required:         []string{"executions", "outcome found", "outcome cancelled", "outcome found although cancelled", "simultaneous-find executions", "cancel before call", "goroutines accounted"},
+		Required:         []string{"executions", "outcome found", "outcome cancelled", "outcome found although cancelled", "simultaneous-find executions", "cancel before call", "goroutines accounted", "executions with a second caller on the same Worker"},
 		WatchdogQuick:    1500,
 		WatchdogThorough: 7200,
 		Post: func(r *fw.RunResult) {
@@ -67,16 +67,21 @@ type cfg struct {
 	hogs        int
 	doneDelayUS int
 	seed        uint64
+	shared      bool // a second goroutine mines concurrently on the same *Worker
 }
 
 func (c cfg) encode() []byte {
 	b := []byte{byte(c.version), byte(c.workers), byte(c.tclass), byte(c.cmode), byte(c.ckind), byte(c.procs), byte(c.hogs)}
 	b = append(b, fw.U32(uint32(c.doneDelayUS))...)
-	return append(b, fw.U64(c.seed)...)
+	b = append(b, fw.U64(c.seed)...)
+	if c.shared {
+		b = append(b, 1)
+	}
+	return b
 }
 
 func decode(k []byte) cfg {
-	return cfg{int(k[0]), int(k[1]), int(k[2]), int(k[3]), int(k[4]), int(k[5]), int(k[6]), int(fw.GetU32(k[7:])), fw.GetU64(k[11:])}
+	return cfg{int(k[0]), int(k[1]), int(k[2]), int(k[3]), int(k[4]), int(k[5]), int(k[6]), int(fw.GetU32(k[7:])), fw.GetU64(k[11:]), len(k) > 19 && k[19] == 1}
 }
 
 // hctx is a context implemented by the harness so that the watcher's Done()
@@ -266,6 +271,42 @@ func judge(class string, key []byte, o *fw.Obs) {
 		pan   interface{}
 	}
 	resCh := make(chan result, 1)
+	w1, w2 := pow.New(c.workers), powv2.New(c.workers)
+	// optional second caller on the same Worker (easy target, looped until the first call returns)
+	var stopSecond int32
+	secondDone := make(chan string, 1)
+	if c.shared {
+		data2 := make([]byte, 1+r.Intn(40))
+		r.Read(data2)
+		e1, e2 := 9/float64(len(data2)+8), uint64(1)
+		go func() {
+			bad := ""
+			for n := 0; atomic.LoadInt32(&stopSecond) == 0 && n < 2000 && bad == ""; n++ {
+				func() {
+					defer func() {
+						if p := recover(); p != nil {
+							bad = fmt.Sprintf("second caller panicked: %v", p)
+						}
+					}()
+					msg := append(append([]byte(nil), data2...), make([]byte, 8)...)
+					if c.version == 1 {
+						nonce, err := w1.Mine(context.Background(), data2, e1)
+						binary.LittleEndian.PutUint64(msg[len(data2):], nonce)
+						if err != nil || !(pow.Score(msg) >= e1) {
+							bad = fmt.Sprintf("second caller on the shared Worker got nonce %d err %v not meeting its target", nonce, err)
+						}
+					} else {
+						nonce, err := w2.Mine(context.Background(), data2, e2)
+						binary.LittleEndian.PutUint64(msg[len(data2):], nonce)
+						if err != nil || powv2.Score(msg) < e2 {
+							bad = fmt.Sprintf("second caller on the shared Worker got nonce %d err %v not meeting its target", nonce, err)
+						}
+					}
+				}()
+			}
+			secondDone <- bad
+		}()
+	}
 	stamp(&evCall)
 	go func() {
 		var res result
@@ -277,9 +318,9 @@ func judge(class string, key []byte, o *fw.Obs) {
 			resCh <- res
 		}()
 		if c.version == 1 {
-			res.nonce, res.err = pow.New(c.workers).Mine(ctx, data, t1)
+			res.nonce, res.err = w1.Mine(ctx, data, t1)
 		} else {
-			res.nonce, res.err = powv2.New(c.workers).Mine(ctx, data, t2)
+			res.nonce, res.err = w2.Mine(ctx, data, t2)
 		}
 	}()
 
@@ -356,6 +397,21 @@ wait:
 		}
 	}
 	cwg.Wait()
+	if c.shared {
+		atomic.StoreInt32(&stopSecond, 1)
+		select {
+		case bad := <-secondDone:
+			if bad != "" {
+				o.Fail("result", "%s", bad)
+				return
+			}
+			o.Count("executions with a second caller on the same Worker")
+		case <-time.After(60 * time.Second):
+			poisoned = true
+			o.Fail("deadlock", "the second caller on the shared Worker (easy target) has not returned 60 s after the first call returned")
+			return
+		}
+	}
 	o.Count("executions")
 	if c.tclass == 0 && c.workers > 1 {
 		o.Count("simultaneous-find executions")
@@ -468,6 +524,7 @@ func gen(g *fw.Gen) {
 		if g.Rng.Intn(3) == 0 {
 			c.doneDelayUS = g.Rng.Intn(2000)
 		}
+		c.shared = g.Rng.Intn(5) == 0
 		if c.tclass == 2 && c.cmode == 0 && g.Rng.Intn(2) == 0 {
 			c.tclass = 1 // keep the uncancelled medium runs (slowest under -race) at half weight
 		}
